@@ -70,6 +70,7 @@ type tcase struct {
 	DID    string        `json:"did,omitempty"`
 	URL    string        `json:"url,omitempty"`
 	Server *serverScript `json:"server,omitempty"`
+	Order  string        `json:"order,omitempty"` // before-strict | after-strict: when the resolver was built (default: before-strict)
 	Local  string        `json:"local,omitempty"` // none | active | deactivated
 	Meta   string        `json:"meta,omitempty"`  // nil | false | true  (ResolveMetadata.AllowDeactivated)
 	// key / jwk
@@ -266,6 +267,7 @@ type world struct {
 	t         *testing.T
 	rec       *recorder
 	vdr       *vdr.Module
+	vdrs      map[string]*vdr.Module
 	ctx       context.Context
 	rnd       *mrand.Rand
 	pubURL    string
@@ -303,16 +305,26 @@ func newWorld(t *testing.T, in input) *world {
 	w.transport = tr
 	client.SafeHttpTransport = tr
 	client.DefaultCachingTransport = client.NewCachingTransport(tr, 10*1024*1024) // what http.Engine.configureClient installs by default
-	client.StrictMode = in.Strict
-
-	// real VDR wiring over sqlite
-	storageEngine := storage.NewTestStorageEngine(t)
-	db := storageEngine.GetSQLDatabase()
-	keyStore := nutsCrypto.NewDatabaseCryptoInstance(db)
-	w.vdr = vdr.NewVDR(keyStore, nil, nil, nil, storageEngine, nil)
-	if err := w.vdr.Configure(core.ServerConfig{URL: in.PublicURL, DIDMethods: []string{"web"}, Strictmode: in.Strict}); err != nil {
-		t.Fatalf("vdr configure: %v", err)
+	// real VDR wiring over sqlite, in BOTH construction orders relative to strict mode being switched on:
+	//   before-strict  vdr.Configure (didweb.NewResolver -> client.NewWithCache) first, then the flag: the order of cmd.CreateSystem,
+	//                  where the HTTP engine - the only place that sets client.StrictMode - is registered and configured last
+	//   after-strict   the flag is already on when the resolver is built
+	mk := func() *vdr.Module {
+		storageEngine := storage.NewTestStorageEngine(t)
+		db := storageEngine.GetSQLDatabase()
+		keyStore := nutsCrypto.NewDatabaseCryptoInstance(db)
+		m := vdr.NewVDR(keyStore, nil, nil, nil, storageEngine, nil)
+		if err := m.Configure(core.ServerConfig{URL: in.PublicURL, DIDMethods: []string{"web"}, Strictmode: in.Strict}); err != nil {
+			t.Fatalf("vdr configure: %v", err)
+		}
+		return m
 	}
+	client.StrictMode = false // zero value of a fresh process
+	w.vdrs = map[string]*vdr.Module{}
+	w.vdrs["before-strict"] = mk()
+	client.StrictMode = in.Strict // http.Engine.configureClient
+	w.vdrs["after-strict"] = mk()
+	w.vdr = w.vdrs["before-strict"]
 	return w
 }
 
@@ -674,6 +686,10 @@ func TestDriver(t *testing.T) {
 	logrus.SetLevel(logrus.PanicLevel)
 	for _, c := range in.Cases {
 		var res result
+		w.vdr = w.vdrs["before-strict"]
+		if m, ok := w.vdrs[c.Order]; ok {
+			w.vdr = m
+		}
 		switch c.Kind {
 		case "web":
 			res = w.runWeb(c)
